@@ -10,11 +10,46 @@ use proptest::prelude::*;
 const SLACK: f64 = 1e-9;
 
 pub fn check(c: &Case, ctx: &mut Ctx) -> Result<(), Failure> {
+    let mut ind = Ind::build(c.cfg.kind, &c.cfg.params()).map_err(|_| Failure { signature: "C07:harness".into(), detail: "HARNESS build".into() })?;
+    check_on(c, ctx, &mut ind)
+}
+
+/// the same range claims after `reset()` on the same instance (the slack of the MoneyFlowIndex clause is stated
+/// "since reset"): the stream is cut at the reset positions and every stretch is judged as a stream of its own
+pub fn check_resets(r: &crate::props::c03::RCase, ctx: &mut Ctx) -> Result<(), Failure> {
+    let c = &r.case;
+    let mut ind = Ind::build(c.cfg.kind, &c.cfg.params()).map_err(|_| Failure { signature: "C07:harness".into(), detail: "HARNESS build".into() })?;
+    let len = if c.scalar { c.xs.len() } else { c.bars.len() };
+    let mut cuts: Vec<usize> = r.resets.iter().copied().filter(|&x| x > 0 && x < len).collect();
+    cuts.sort_unstable();
+    cuts.dedup();
+    cuts.push(len);
+    let mut a = 0usize;
+    for (j, &b) in cuts.iter().enumerate() {
+        if j > 0 {
+            ind.reset();
+            ctx.label("segments_after_reset");
+        }
+        let mut seg = c.clone();
+        if c.scalar {
+            seg.xs = c.xs[a..b].to_vec();
+        } else {
+            seg.bars = c.bars[a..b].to_vec();
+        }
+        let was = ctx.counting;
+        ctx.counting = was && j + 1 == cuts.len();
+        let res = check_on(&seg, ctx, &mut ind);
+        ctx.counting = was;
+        res?;
+        a = b;
+    }
+    Ok(())
+}
+
+pub fn check_on(c: &Case, ctx: &mut Ctx, ind: &mut Ind) -> Result<(), Failure> {
     let k = c.cfg.kind;
-    let p = c.cfg.params();
     let n = c.cfg.n();
     let name = k.name();
-    let mut ind = Ind::build(k, &p).map_err(|_| Failure { signature: "C07:harness".into(), detail: "HARNESS build".into() })?;
     let len = if c.scalar { c.xs.len() } else { c.bars.len() };
     let mut fp = Fp::new("C07");
     c.cfg.fp(&mut fp);
@@ -28,7 +63,7 @@ pub fn check(c: &Case, ctx: &mut Ctx) -> Result<(), Failure> {
     let mut near_bound = false;
     let (mut checked, mut skipped) = (0u64, 0u64);
     for i in 0..len {
-        crate::tele::step(&mut ind, &c.cfg);
+        crate::tele::step(ind, &c.cfg);
         let (out, bar) = if c.scalar {
             let x = c.xs[i].0;
             fp.f(x);
@@ -153,6 +188,35 @@ fn no_mult() -> BoxedStrategy<f64> {
     Just(0.0).boxed()
 }
 
+fn reset_strategy() -> BoxedStrategy<crate::props::c03::RCase> {
+    use crate::props::c03::{rescale_stretches, RCase};
+    prop_oneof![
+        1 => cfg_among(&SK, 40, no_mult)
+            .prop_flat_map(|cfg| {
+                let n = cfg.n();
+                (Just(cfg), prop_oneof![3 => stream(Domain::PositiveGrid, 4 * n + 10, 8 * n + 60), 1 => stream(Domain::Positive, 4 * n + 10, 8 * n + 60)], proptest::collection::vec(any::<u16>(), 1..4), proptest::collection::vec(prop_oneof![1 => Just(0u8), 2 => 0u8..36], 3))
+            })
+            .prop_map(|(cfg, s, pk, sc)| {
+                let resets = crate::hist::reset_positions(cfg.n(), s.vals.len(), &pk);
+                let mut x = xs(&s.vals);
+                rescale_stretches(&mut x, &mut [], &resets, &sc);
+                RCase { case: Case { cfg, scalar: true, xs: x, bars: vec![], stride: 0 }, resets }
+            }),
+        2 => cfg_among(&BK, 40, no_mult)
+            .prop_flat_map(|cfg| {
+                let n = cfg.n();
+                (Just(cfg), prop_oneof![3 => bar_stream(true, 4 * n + 10, 8 * n + 60), 1 => bar_stream(false, 4 * n + 10, 8 * n + 60)], proptest::collection::vec(any::<u16>(), 1..4), proptest::collection::vec(prop_oneof![1 => Just(0u8), 2 => 0u8..36], 3))
+            })
+            .prop_map(|(cfg, s, pk, sc)| {
+                let resets = crate::hist::reset_positions(cfg.n(), s.bars.len(), &pk);
+                let mut bars = s.bars;
+                rescale_stretches(&mut [], &mut bars, &resets, &sc);
+                RCase { case: Case { cfg, scalar: false, xs: vec![], bars, stride: 0 }, resets }
+            }),
+    ]
+    .boxed()
+}
+
 fn strategy(lo: usize, hi: usize) -> BoxedStrategy<Case> {
     prop_oneof![
         cfg_among(&SK, 512, no_mult)
@@ -203,6 +267,8 @@ pub fn run(g: &mut Global) {
     // identity events (tele.rs): at one or two steps the instance is replaced by its clone, by a used instance
     // (same or longer periods) that clone_from()s it, or by its serde round trip; nothing may change
     g.random("events", g.tier.pick(12000, 200000), &|| crate::tele::wrap(strategy(1, 400)), &|t: &crate::tele::TCase<Case>, ctx: &mut Ctx| crate::tele::check_wrapped(t, ctx, if t.case.scalar { t.case.xs.len() } else { t.case.bars.len() }, t.case.cfg.n(), check));
+    // reset() on the same instance, the next stretch possibly in another price / volume unit (another instrument)
+    g.random("resets", g.tier.pick(30000, 300000), &reset_strategy, &check_resets);
     // window extremes at every ring phase (hist::extreme_stress): a stale or missed extreme puts %K outside
     // [0, 100] as soon as the price leaves the remembered range
     const XP: [usize; 16] = [2, 3, 5, 8, 31, 64, 65, 100, 127, 128, 129, 200, 256, 257, 511, 1025];
